@@ -37,10 +37,16 @@ func (p PipeCon) SetDeadline(t time.Time) error {
 }
 
 func (p PipeCon) SetReadDeadline(t time.Time) error {
+	if d, ok := p.reader.(interface{ SetReadDeadline(time.Time) error }); ok {
+		return d.SetReadDeadline(t)
+	}
 	return nil
 }
 
 func (p PipeCon) SetWriteDeadline(t time.Time) error {
+	if d, ok := p.writer.(interface{ SetWriteDeadline(time.Time) error }); ok {
+		return d.SetWriteDeadline(t)
+	}
 	return nil
 }
 
